@@ -439,7 +439,7 @@ func c13Run(x *verifkit.Ctx, c tCase) error {
 
 func TestVerifC13Merge(t *testing.T) {
 	verifkit.Run(t, verifkit.Spec[tCase]{
-		Property: "C13", Unit: "merge_sampling",
+		Property: "C13", Unit: "merge_sampling", CrashReplay: true,
 		Rule: "2..5 parts of 1..8 spans over traces trace-000..005 (unique span ids, status tag ok/err, timestamps out of order but all spans of a trace within the enforced fragment gap (merge grace), traces 1000/50/0 ns apart; in 1 of 6 cases one trace " +
 			"carries 3..5 spans of 600..900 KiB in different parts so that the merged trace crosses the 2 MiB block limit), any subset of >= 1 parts merged and the rest left in the " +
 			"table's snapshot, sampler in {none, drop-by-id, drop-unless-error-span, drop-if-short, error, panic, wrong verdict size} with every " +
